@@ -58,6 +58,11 @@ fn build_reply(recipe: &str, k: &[u8], spk: &[u8], spk_other: &[u8], client_pka:
         "pkaxor" => { let m = unhex(arg); let mut p = honest_pka.clone(); for (i, b) in m.iter().enumerate() { if i < p.len() { p[i] ^= b; } } ts_request(None, Some(&p), 2) }
         // the honest sealed part under an all-zero checksum (a "dummy signature")
         "sigzero" => { let mut p = honest_pka.clone(); for i in 4..12 { if i < p.len() { p[i] = 0; } } ts_request(None, Some(&p), 2) }
+        // validly sealed and signed replies whose plaintext is NOT key + 1: a PROPER prefix of it (at most n bytes), or it followed by bytes
+        "plen" => { let n: usize = arg.parse().unwrap_or(1); ts_request(None, Some(&seal.seal(&plus1[..n.min(plus1.len() - 1)])), 2) }
+        "pext" => { let mut v = plus1.clone(); v.extend(unhex(arg)); ts_request(None, Some(&seal.seal(&v)), 2) }
+        // a well-formed TSRequest whose pubKeyAuth token is cut to n bytes (shorter than the 16-byte signature)
+        "pkacut" => { let n: usize = arg.parse().unwrap_or(0); ts_request(None, Some(&honest_pka[..n.min(honest_pka.len())]), 2) }
         "raw" => unhex(arg),
         "empty" => vec![],
         _ => honest.clone(),
@@ -246,6 +251,9 @@ pub fn generate(thorough: bool, seed: u64, part: (usize, usize), em: &mut Emitte
             "appendzero:1".into(), "appendzero:7".into(), "seq:1".into(), "seq:4294967295".into(), "ver:3".into(), "ver:6".into(), "off:1".into(),
             "raw:00".into(), "raw:3000".into(), "raw:300ca003020102a305040300010203".into(), format!("raw:{}", hex(&r.bytes(40)))];
         for o in offs { recipes.push(format!("off:{}", o)); }
+        for n in &[1usize, 2, 16, 100, 269] { recipes.push(format!("plen:{}", n)); }
+        for x in &["01", "ff", "0001", "00000000000000000000000001"] { recipes.push(format!("pext:{}", x)); }
+        for n in &[0usize, 1, 4, 10, 15, 16, 17] { recipes.push(format!("pkacut:{}", n)); }
         for rc in recipes { let mut c = b.clone(); c.reply = rc; if mine(&mut idx) { run(em, &c); } }
         // truncations: every prefix (thorough) / sampled
         let total = 4 + 5 + 4 + 16 + 270 + 2;   // upper bound of the honest reply length
